@@ -35,6 +35,7 @@ var (
 	C  sdk.AccAddress // user
 	D  sdk.AccAddress // stranger: funded, holds no credits and no role
 	G  sdk.AccAddress // governance authority
+	L  = acct("L")    // an account whose coins are locked (market scenario)
 
 	EcoMod, BasketMod, FeePool sdk.AccAddress
 )
